@@ -52,7 +52,15 @@ def heat_balance(rep, case, sc, model):
                 w = model.feed_compositions[k].p
                 cp = w * c1.get_specific_heat(t) / m1 + (1 - w) * c2.get_specific_heat(t) / m2
                 drop = q / (cp * model.feed_mass[k])
-                rep.check("self-cooling: T_k+1 = T_k - Q_k/(m_k cp_k)", abs(tn - (t - drop)), 64 * EPS * max(abs(t), abs(drop)), c,
+
+                def terms(comp):
+                    h = comp.heat_capacity_constants
+                    return abs(h.a) + abs(h.b) * abs(t) + abs(h.c) * t * t + abs(h.d) * abs(t) ** 3
+
+                # cp is a sum of signed polynomial terms (far below the fitted range they nearly cancel): its rounding error is
+                # a few ulp of the largest TERM, which the division passes on to the temperature drop
+                amplification = (w * terms(c1) / m1 + (1 - w) * terms(c2) / m2) / abs(cp) if cp else float("inf")
+                rep.check("self-cooling: T_k+1 = T_k - Q_k/(m_k cp_k)", abs(tn - (t - drop)), 64 * EPS * (max(abs(t), abs(drop)) + abs(drop) * amplification), c,
                           {"T_k+1": tn, "ref": t - drop})
             else:
                 refs = (prog.program(model.time[k + 1]), prog.program(model.time[k] + sc.dt))
